@@ -19,6 +19,7 @@ type vmBox struct {
 	stringify otto.Value
 	parse     otto.Value
 	mkToJSON  otto.Value
+	define    otto.Value
 	objectFn  otto.Value
 	fn        otto.Value
 	repl      map[int]otto.Value
@@ -37,7 +38,17 @@ var replSrc = []string{
 	`(function(k,v){return typeof v==="number"?k:v})`,
 }
 
-var vmPool = sync.Pool{New: func() interface{} {
+// Three kinds of runtime: 0 = pristine; 1 = Object.prototype has a setter (no getter) named "a" and "";
+// 2 = Object.prototype has a read-only data property 7 named "a" and "".
+var envSrc = []string{
+	``,
+	`Object.defineProperty(Object.prototype,"a",{set:function(v){},configurable:true});Object.defineProperty(Object.prototype,"",{set:function(v){},configurable:true});`,
+	`Object.defineProperty(Object.prototype,"a",{value:7,writable:false,configurable:true});Object.defineProperty(Object.prototype,"",{value:7,writable:false,configurable:true});`,
+}
+
+var vmPools = [3]sync.Pool{{New: func() interface{} { return newBox(0) }}, {New: func() interface{} { return newBox(1) }}, {New: func() interface{} { return newBox(2) }}}
+
+func newBox(env int) *vmBox {
 	vm := otto.New()
 	b := &vmBox{vm: vm, repl: map[int]otto.Value{}, reviver: map[int]otto.Value{}}
 	must := func(src string) otto.Value {
@@ -58,8 +69,12 @@ var vmPool = sync.Pool{New: func() interface{} {
 	for i, s := range reviverSrc {
 		b.reviver[i] = must(s)
 	}
+	b.define = must(`(function(o,k,v){Object.defineProperty(o,k,{value:v,writable:true,enumerable:true,configurable:true})})`)
+	if envSrc[env] != "" {
+		must(envSrc[env])
+	}
 	return b
-}}
+}
 
 // ---------------------------------------------------------------- strings
 
@@ -164,6 +179,14 @@ func (r *reader) box(p otto.Value) otto.Value {
 	return v
 }
 
+// def creates an own data property with [[DefineOwnProperty]] (o.Set would be [[Put]], which an
+// inherited accessor or read-only property intercepts).
+func (r *reader) def(o *otto.Object, k string, v otto.Value) {
+	if _, err := r.b.define.Call(otto.UndefinedValue(), o.Value(), k, v); err != nil {
+		panic(err)
+	}
+}
+
 func (r *reader) value() otto.Value {
 	c := r.s[r.i]
 	r.i++
@@ -217,9 +240,7 @@ func (r *reader) value() otto.Value {
 		}
 		r.stack = append(r.stack, o.Value())
 		for idx := 0; r.s[r.i] != ']'; idx++ {
-			if err := o.Set(strconv.Itoa(idx), r.value()); err != nil {
-				panic(err)
-			}
+			r.def(o, strconv.Itoa(idx), r.value())
 		}
 		r.i++
 		r.stack = r.stack[:len(r.stack)-1]
@@ -232,9 +253,7 @@ func (r *reader) value() otto.Value {
 		r.stack = append(r.stack, o.Value())
 		for r.s[r.i] != '}' {
 			k := string(utf16.Decode(r.units()))
-			if err := o.Set(k, r.value()); err != nil {
-				panic(err)
-			}
+			r.def(o, k, r.value())
 		}
 		r.i++
 		r.stack = r.stack[:len(r.stack)-1]
